@@ -52,8 +52,17 @@ THEOREMS = [
     "Verif.C09.ensemble_identical_curve",
     "Verif.C09.ols_scale",
     "Verif.C09.ols_time_scale",
+    "Verif.C09.optimal_points_cache",
+    "Verif.C09.optimal_points_invariant",
+    "Verif.C09.optimal_points_scale",
+    "Verif.C09.ols_estimate_def",
+    "Verif.C09.ols_auto_def",
+    "Verif.C09.ols_auto_invariant",
+    "Verif.C09.ols_auto_scale",
+    "Verif.C09.ols_auto_time_scale",
 ]
 TOL = 1e-9
+AUTO_OPS = ("optpts", "olsauto", "copyauto", "ensolsauto", "optraw")  # max_lag=None: determine_optimal_points and what is built on it
 VARIANTS = ("base", "translate", "mirror", "shift", "scale", "time", "far")
 BASIC = VARIANTS[1:6]  # the variants every generated case gets; "far" (a translation by a huge offset) is added explicitly
 
@@ -149,6 +158,14 @@ def pow2(a):
     return a > 0 and math.frexp(a)[0] == 0.5
 
 
+def auto_variants(case):
+    """the variants on which the AUTO_OPS (automatic number of lags) of a case are run: base, the position scale (the lag
+    search must not depend on the length unit: optimal_points_scale) and one more, cycling with the content of the case"""
+    f = case["frames"][0] if case["kind"] == "ens" and case["frames"] else case["frames"]
+    key = len(f) + int(sum(f)) + len(case.get("variants", []))
+    return ("base", "scale", BASIC[key % len(BASIC)], "far" if key % 3 == 0 else "base")
+
+
 def expand(case):
     """list of calls; each call = one protocol op with concrete inputs"""
     kind = case["kind"]
@@ -161,12 +178,16 @@ def expand(case):
                     "fdtype": case.get("fdtype")}
             a2 = case["meta"]["a"] ** 2 if v == "scale" else 1.0
             for op in case["ops"]:
+                if op in AUTO_OPS and v not in auto_variants(case):
+                    continue
                 c = dict(base, op=op)
                 if op in ("msd", "kmsd", "ols"):
                     c["L"] = case.get("L_" + op, case.get("L"))
                 if op == "cvek":
                     c["lv"] = case["lv"] * a2 if case["lv"] is not None else None
                     c["vlv"] = case["vlv"] * a2 * a2 if case["vlv"] is not None else None
+                if op == "copyauto":
+                    c["copies_k"] = case.get("copies_k", 2)
                 if op == "ols" and (v != "scale" or pow2(case["meta"]["a"])):
                     # GLS / automatic lag selection: exact under power-of-two scaling, so asserted there too
                     c["extras"] = case.get("extras", [])
@@ -182,6 +203,8 @@ def expand(case):
                 cs.append(x2)
             base = {"v": v, "frames": fs, "coords": cs, "px": px, "dt": dt, "blur": case["blur"], "fdtype": case.get("fdtype")}
             for op in case["ops"]:
+                if op in AUTO_OPS and v not in auto_variants(case):
+                    continue
                 c = dict(base, op=op, L=case.get("L"), minc=case.get("minc", 2))
                 if op == "ensols":
                     c["L"] = case.get("L_ols", case.get("L"))
@@ -206,6 +229,9 @@ def expand(case):
         calls.append({"v": "base", "op": "wmean", "means": case["means"], "counts": case["counts"]})
     elif kind == "cov":
         calls.append({"v": "base", "op": "cov", "K": case["K"], "n": case["n"], "a": case["a"], "b": case["b"]})
+    elif kind == "optraw":  # optimal_points(localization_error, num_points) on a list of localisation errors
+        for le in case["les"]:
+            calls.append({"v": "base", "op": "optraw", "le": le, "n": case["n"]})
     elif kind == "brownian":
         # a SESSION: the simulations of the case are run one after the other in this process (after everything that was
         # simulated `before`), and every observation is made on the KymoTrackGroup the simulation RETURNED (`obs`, recorded by
@@ -339,10 +365,14 @@ def run_call(c):
     if op == "wmean":
         w = me.weighted_mean_and_sd(np.array(c["means"], dtype=float), np.array(c["counts"], dtype=np.int64))
         return "ok " + " ".join(rat(x) for x in w)
+    if op == "optraw":
+        le = {"inf": np.inf, "nan": np.nan, "zero": 0}.get(c["le"], c["le"])  # "zero": the Python int the code passes on
+        ns, ni = me.optimal_points(le if isinstance(le, int) else np.float64(le), c["n"])
+        return f"ok {int(ns)} {int(ni)}"
     if op == "cov":
         m = me._msd_diffusion_covariance(c["K"], c["n"], c["a"], c["b"])
         return "ok [" + ";".join(",".join(rat(x) for x in row) for row in m) + "]"
-    if op in ("msd", "kmsd", "cve", "cvek", "ols"):
+    if op in ("msd", "kmsd", "cve", "cvek", "ols", "optpts", "olsauto", "copyauto"):
         tr = make_track(c)
         pos = np.array(tr.position)
         if pos.tolist() != positions_of(c["coords"], c["px"]) or tr._line_time_seconds != c["dt"]:
@@ -354,6 +384,15 @@ def run_call(c):
         if op == "kmsd":
             t, msd = tr.msd(c["L"])
             return f"ok {rlist(t)} {rlist(msd)}"
+        if op == "optpts":  # the anchored lag search itself: (num_points_slope, num_points_intercept)
+            ns, ni = me.determine_optimal_points(frames, pos)
+            return f"ok {int(ns)} {int(ni)}"
+        if op == "olsauto":  # max_lag=None: the library chooses the number of lags and reports it
+            e = tr.estimate_diffusion("ols")
+            return show_est(e) + f" {int(e.num_lags)}"
+        if op == "copyauto":  # the ensemble of k identical copies of this track, max_lag=None
+            e = KymoTrackGroup([make_track(c) for _ in range(c.get("copies_k", 2))]).ensemble_diffusion("ols")
+            return show_est(e) + f" {int(e.num_lags)}"
         if op == "cve":
             return show_est(tr.estimate_diffusion("cve"))
         if op == "cvek":
@@ -375,9 +414,12 @@ def run_call(c):
                 except Exception as err:  # noqa: BLE001
                     ex.append(f"{name}={errname(err)}")
             return ans + (" ## " + " ".join(ex) if ex else "")
-    if op in ("ensmsd", "enscve", "ensols"):
+    if op in ("ensmsd", "enscve", "ensols", "ensolsauto"):
         tracks = [make_track(c, j) for j in range(len(c["frames"]))]
         g = KymoTrackGroup(tracks)
+        if op == "ensolsauto":  # ensemble OLS, max_lag=None
+            e = g.ensemble_diffusion("ols")
+            return show_est(e) + f" {int(e.num_lags)}"
         if op == "ensmsd":
             em = g.ensemble_msd(c["L"], c["minc"])
             return (f"ok {enc_list(em.lags)} {rlist(em.msd)} {rlist(em.variance)} {rlist(em.counts)} "
@@ -420,8 +462,17 @@ def op_line(c):
         return f"c09.wmean {rlist(c['means'])} {rlist(c['counts'])}"
     if op == "cov":
         return f"c09.cov {c['K']} {rat(c['n'])} {rat(c['a'])} {rat(c['b'])}"
-    if op in ("msd", "kmsd", "cve", "cvek", "ols"):
+    if op == "optraw":
+        return f"c09.optraw {c['le'] if c['le'] in ('inf', 'nan') else '0' if c['le'] == 'zero' else rat(c['le'])} {int(c['n'])}"
+    if op in ("msd", "kmsd", "cve", "cvek", "ols", "optpts", "olsauto", "copyauto"):
         fs, xs = enc_list(c["frames"]), rlist(positions_of(c["coords"], c["px"]))
+        if op == "optpts":
+            return f"c09.optpts {fs} {xs}"
+        if op == "olsauto":
+            return f"c09.olsauto {fs} {xs} {rat(c['dt'])}"
+        if op == "copyauto":
+            k = c.get("copies_k", 2)
+            return f"c09.ensolsauto [{';'.join([fs[1:-1]] * k)}] [{';'.join([xs[1:-1]] * k)}] {rat(c['dt'])}"
         if op == "msd":
             return f"c09.msd {fs} {xs} {opt_int(c['L'])}"
         if op == "kmsd":
@@ -439,6 +490,8 @@ def op_line(c):
         return f"c09.enscve {fs} {xs} {rat(c['dt'])} {rat(c['blur'])}"
     if op == "ensols":
         return f"c09.ensols {fs} {xs} {rat(c['dt'])} {int(c['L'])}"
+    if op == "ensolsauto":
+        return f"c09.ensolsauto {fs} {xs} {rat(c['dt'])}"
     raise ValueError(op)
 
 
@@ -497,13 +550,34 @@ def strip_extras(a):
 def agree(case, i, ia, ma):
     """DESIGN 2.2: ints exactly; rationals within 1e-9 * scale, the scale supplied by the model"""
     ia = strip_extras(ia)
+    op = calls_of(case)[i]["op"]
+    if op in AUTO_OPS and ma == "tie":
+        # the model reports that a sign / floor the lag search branches on is decided by the last bits of a double
+        # (signTies / floorTie in the model): nothing to compare; counted in extra_coverage
+        return True
     if not ia.startswith("ok ") or not ma.startswith("ok "):
         return ia == ma
-    op = calls_of(case)[i]["op"]
     a = [ptok(t) for t in ia.split()[1:]]
     m = [ptok(t) for t in ma.split()[1:]]
     if op == "msd":
         return a[0] == m[0] and a[1] == m[1] and near_list(a[2], m[2])
+    if op in ("optpts", "optraw"):
+        return a == m
+    if op in ("olsauto", "copyauto", "ensolsauto"):
+        if len(a) != 4 or len(m) != 7 or a[3] != m[3]:  # the number of lags exactly
+            return False
+        for j in range(3):
+            if m[j] == "nonfinite":
+                if not isinstance(a[j], float):
+                    return False
+                continue
+            if isinstance(a[j], float) and math.isnan(a[j]) and op != "olsauto" and j == 1:
+                if not (m[1] <= Fr(TOL) * abs(m[5])):  # sqrt of a negative var_slope/ess
+                    return False
+                continue
+            if not near(a[j], m[j], m[4 + j]):
+                return False
+        return True
     if op == "kmsd":
         return near_list(a[0], m[0]) and near_list(a[1], m[1])
     if op in ("cve", "cvek", "ols", "ensols"):
@@ -810,6 +884,29 @@ def copies_auto(single, copies, frames, pos, S, what, pts=None):
     return same_est("ok " + " ".join([xc[0], "0/1", xc[2]]), "ok " + " ".join([xs[0], "0/1", xs[2]]), (1, 1, 1), S, what)
 
 
+def est4(a):
+    """'ok value var lv num_lags' -> 'value,var,lv,num_lags' (the form auto_lags_line / copies_auto take), else the exception name"""
+    x = a.split()
+    return ",".join(x[1:5]) if a.startswith("ok ") and len(x) >= 5 else a
+
+
+def auto_under(op, v, exact_variant, av, ab, f, S, tie, what):
+    """an AUTO_OPS answer of a variant vs the base answer: the SAME number of lags (optimal_points_invariant / _scale: the
+    lag search is invariant under translate / mirror / frame shift / line time and under ANY position scale a != 0) and the
+    estimate scaled by f.  Where the variant changes the doubles of the MSD curve by rounding (a non-dyadic scale, a
+    translation that is not exact) a track with a sign tie (sign_ties) may legitimately take another branch: not asserted."""
+    if av == ab:
+        return None
+    if tie() and not exact_variant:
+        return None
+    if op == "optpts" or not ab.startswith("ok ") or not av.startswith("ok "):
+        return f"{what}: base gives {ab[:60]}, variant gives {av[:60]}"
+    xv, xb = av.split(), ab.split()
+    if xv[4] != xb[4]:
+        return f"{what}: the number of lags chosen by the library changed from {xb[4]} to {xv[4]}"
+    return same_est(" ".join(xv[:4]), " ".join(xb[:4]), f, S, what)
+
+
 def oracle(case, ia):
     calls = calls_of(case)
     kind = case["kind"]
@@ -838,6 +935,14 @@ def oracle(case, ia):
             for j in range(len(m)):
                 if isinstance(m[i][j], float) or not near(m[i][j], m[j][i], m[i][j], 1e-12):
                     return f"covariance matrix is not symmetric/finite at ({i},{j})"
+        return None
+    if kind == "optraw":
+        for c, a in zip(calls, ia):
+            if case["n"] <= 4:
+                if a != "RuntimeError":
+                    return f"optimal_points with {case['n']} points: expected RuntimeError, got {a[:40]}"
+            elif a.startswith("ok ") and min(int(x) for x in a.split()[1:3]) < 2:
+                return f"optimal_points({c['le']}, {case['n']}) = {a}: a line needs at least two lags"
         return None
     if kind == "brownian":
         return oracle_brownian(case, ia)
@@ -909,10 +1014,36 @@ def oracle(case, ia):
                                       f"ensemble of {case.get('copies_k', 2)} identical tracks, automatic number of lags", full)
                     if msg:
                         return msg
+            elif op in ("optpts", "olsauto", "copyauto"):
+                if n <= 4:
+                    if a != "RuntimeError":
+                        return f"{op} on a track of {n} points: expected RuntimeError (5 points needed), got {a[:60]}"
+                    continue
+                full = [(Fr(e[0]), e[1]) for e in brute_msd(frames, pos, None)]
+                if op == "optpts":
+                    if a.startswith("ok "):
+                        ns, ni = (int(x) for x in a.split()[1:3])
+                        if ns < 2 or ni < 2:
+                            return f"determine_optimal_points returned ({ns}, {ni}): a line needs at least two lags"
+                        oa = ans("base", "olsauto") if ("base", "olsauto") in idx else None
+                        if oa and oa.startswith("ok ") and int(oa.split()[4]) != ns:
+                            return (f"estimate_diffusion('ols') reports num_lags={oa.split()[4]} but determine_optimal_points "
+                                    f"returns {ns} lags for the slope")
+                elif op == "olsauto":
+                    msg = auto_lags_line(est4(a), full, case["dt"], "ols with the automatic number of lags (olsauto)")
+                    if msg:
+                        return msg
+                elif ("base", "olsauto") in idx:
+                    msg = copies_auto(est4(ans("base", "olsauto")), est4(a), frames, pos, S,
+                                      f"ensemble of {case.get('copies_k', 2)} identical tracks, automatic number of lags (copyauto)", full)
+                    if msg:
+                        return msg
         # physical symmetries, evaluated on the implementation's own answers
         for v in sorted({c["v"] for c in calls} - {"base"}):
             f = REL[v](meta)
             for op in case["ops"]:
+                if (v, op) not in idx:  # the AUTO_OPS run on auto_variants(case) only
+                    continue
                 av, ab = strip_extras(ans(v, op)), strip_extras(ans("base", op))
                 what = f"{op} under {v}"
                 if op in ("msd", "kmsd"):
@@ -934,6 +1065,13 @@ def oracle(case, ia):
                             return f"{what}: lag times are not {float(ft)} x the original"
                         if not near_list(gv[1], [fm * x for x in gb[1]], [max(fm * x, fm * S0) for x in gb[1]]):
                             return f"{what}: MSD values are not {float(fm)} x the original"
+                elif op in AUTO_OPS and (v, op) not in idx:
+                    continue
+                elif op in AUTO_OPS:
+                    exact_v = v in ("mirror", "shift", "time") or (v == "scale" and pow2(meta["a"])) or (v == "translate" and case.get("exact"))
+                    msg = auto_under(op, v, exact_v, av, ab, f, S, lambda: has_sign_tie(frames, pos), what)
+                    if msg:
+                        return msg
                 else:
                     msg = same_est(av, ab, f, S, what)
                     if msg:
@@ -1007,6 +1145,20 @@ def oracle_ens(case, calls, ia, idx, ans, meta, S0, S):
                     return f"ensemble cve: {'value' if j == 1 else 'localization variance'} is not the length-weighted mean of the track estimates"
                 if not near(g[vi], var, svar):
                     return f"ensemble cve: variance of the {'value' if j == 1 else 'localization variance'} is not eq. 57 of Vestergaard et al."
+        elif op == "ensolsauto":
+            exp = ens_msd_expected(tracks, None, 2)
+            if exp[0] != "ok":
+                if a != exp[0]:
+                    return f"ensemble ols (max_lag=None): expected {exp[0]} from the ensemble MSD, got {a[:60]}"
+                continue
+            if len(exp[1]) + 1 <= 4:
+                if a != "RuntimeError":
+                    return f"ensemble ols (max_lag=None) with {len(exp[1])} lags: expected RuntimeError, got {a[:60]}"
+                continue
+            msg = auto_lags_line(est4(a), [(Fr(r[0]), r[1]) for r in exp[1]], case["dt"],
+                                 "ensemble ols with the automatic number of lags (ensolsauto)")
+            if msg:
+                return msg
         elif op == "ensols":
             auto = parse_extras(a).get("olsopt")
             if auto:
@@ -1036,6 +1188,8 @@ def oracle_ens(case, calls, ia, idx, ans, meta, S0, S):
     for v in sorted({c["v"] for c in calls} - {"base", "single", "copies"}):
         f = REL[v](meta)
         for op in case["ops"]:
+            if (v, op) not in idx:  # the AUTO_OPS run on auto_variants(case) only
+                continue
             av, ab = ans(v, op), ans("base", op)
             what = f"{op} under {v}"
             if op == "ensmsd":
@@ -1067,6 +1221,16 @@ def oracle_ens(case, calls, ia, idx, ans, meta, S0, S):
                     if not msg and tv[4] != "N" and tb[4] != "N":
                         if not near(ptok(tv[4]), f[2] ** 2 * ptok(tb[4]), max(f[2] ** 2 * ptok(tb[4]), f[2] ** 2 * S0 * S0)):
                             msg = f"{what}: variance of the localization variance is not {float(f[2] ** 2)} x the original"
+                elif op == "ensolsauto" and (v, op) not in idx:
+                    continue
+                elif op == "ensolsauto":
+                    exact_v = v in ("mirror", "shift", "time") or (v == "scale" and pow2(meta["a"])) or (v == "translate" and case.get("exact"))
+
+                    def ens_tie():
+                        exp = ens_msd_expected(tracks, None, 2)
+                        return exp[0] != "ok" or sign_ties([(Fr(r[0]), r[1]) for r in exp[1]])
+
+                    msg = auto_under(op, v, exact_v, av, ab, fa, S, ens_tie, what)
                 else:
                     msg = same_est(av, ab, fa, S, what)
                     if not msg and (v != "scale" or pow2(meta["a"])):
@@ -1167,6 +1331,8 @@ def nontrivial(case, ia):
         return len(case["frames"]) >= 3 and any(a.startswith("ok ") for a in ia) and len(case.get("variants", [])) >= 1
     if k == "ens":
         return len(case["frames"]) >= 2 and any(a.startswith("ok ") for a in ia)
+    if k == "optraw":
+        return any(a.startswith("ok ") for a in ia)
     return all(a.startswith("ok ") for a in ia)
 
 
@@ -1370,6 +1536,33 @@ def with_copies(case):
     return case
 
 
+def with_auto(case):
+    """(no random draw) the ops of the automatic number of lags, tied to the model's determine_optimal_points: a track that is
+    fitted with OLS also gets `optpts` (the lag search itself), `olsauto` (estimate_diffusion("ols"), max_lag=None) and - without
+    missing frames - `copyauto` (the ensemble of k identical copies, max_lag=None); a group with the "olsopt" extra gets
+    `ensolsauto`.  Each of them is run on every variant of the case."""
+    if case["kind"] == "track" and "ols" in case["ops"] and "olsauto" not in case["ops"] and len(case["frames"]) <= 130:
+        n = len(case["frames"])
+        case["ops"] = list(case["ops"]) + ["optpts", "olsauto"]
+        if contiguous_frames(case["frames"]) and n <= 60:
+            case["ops"].append("copyauto")
+            case.setdefault("copies_k", (2, 3, 5)[n % 3])
+    elif case["kind"] == "ens" and "olsopt" in case.get("extras", []) and "ensolsauto" not in case["ops"]:
+        case["ops"] = list(case["ops"]) + ["ensolsauto"]
+    return case
+
+
+# localisation errors optimal_points is evaluated at (every track length 0..520 on thorough): the constants the code passes on
+# (0 as a Python int, inf, nan) and a grid from diffusion dominated to noise dominated
+OPTRAW_LES = ["zero", 0.0, "inf", "nan", 1e-9, 1e-3, 0.01, 0.1, 0.25, 0.5, 1.0, 2.0, 3.3, 5.0, 10.0, 30.0, 100.0, 1e3, 1e4, 1e6, 1e9, 1e15]
+
+
+def optraw_scope(quick):
+    ns = list(range(0, 141)) + [150, 200, 250, 299, 300, 301, 400, 500, 501] if quick else range(0, 521)
+    for n in ns:
+        yield {"stream": "small-scope", "kind": "optraw", "n": n, "les": OPTRAW_LES if (not quick or n % 3 == 2 or n <= 12) else OPTRAW_LES[:6]}
+
+
 # reduced localisation error x = sigma^2 / (D dt) of a generated track: from diffusion dominated (the regime of the tracks
 # above: the optimal number of lags is 2..3 and the same for slope and intercept) over the crossover to localisation-noise
 # dominated and pure noise (D = 0), where the optimal numbers of lags grow with the track length (up to ~0.56 N for the slope,
@@ -1513,6 +1706,12 @@ def gen_session(rng, quick):
 
 
 def small_scope(quick):
+    """_small_scope with the ops of the automatic number of lags on every track of 4 and 5 points (4: RuntimeError)"""
+    for c in _small_scope(quick):
+        yield with_auto(c) if len(c["frames"]) >= 4 else c
+
+
+def _small_scope(quick):
     """every track of 3..5 points on frames within 0..4 (all gap patterns) with positions in {0,1,3}/4 px (first = 0)"""
     i = 0
     for n in (3, 4, 5):
@@ -1651,13 +1850,13 @@ def _cases(tier, rng):
             c["ops"], c["variants"], c["extras"] = ["msd", "cve"], ["mirror"], []
             c["L_msd"] = sub.randint(1, 4)
         c["subseed"] = i
-        yield pick_storage(sub, with_copies(c))
+        yield pick_storage(sub, with_auto(with_copies(c)))
     r = rng.fork("c09-ens")
     for i in range(70 if quick else 1200):
         sub = r.fork(i)
         c = gen_ens_case(sub, 12 if quick else 50, 30)
         c["subseed"] = i
-        yield pick_storage(sub, c)
+        yield pick_storage(sub, with_auto(c))
     yield from small_scope_ens(quick)
     r = rng.fork("c09-wmean")
     for i in range(60 if quick else 1500):
@@ -1683,13 +1882,13 @@ def _cases(tier, rng):
         sub = r.fork(i)
         c = gen_ens_case(sub, 8 if quick else 30, 16 if quick else 24, shared=True)
         c["subseed"] = i
-        yield pick_storage(sub, c)
+        yield pick_storage(sub, with_auto(c))
     r = rng.fork("c09-tracks-scheme")  # single tracks on a periodic sampling scheme: the k-th lag is not the lag k
     for i in range(30 if quick else 600):
         sub = r.fork(i)
         c = gen_track_case(sub, 24 if quick else 40, scheme=True)
         c["subseed"] = i
-        yield pick_storage(sub, with_copies(c))
+        yield pick_storage(sub, with_auto(with_copies(c)))
     r = rng.fork("c09-far")  # tracks and groups far from the coordinate origin (offset >> step size), see make_far
     for i in range(60 if quick else 800):
         sub = r.fork(i)
@@ -1699,13 +1898,14 @@ def _cases(tier, rng):
             c = gen_track_case(sub, 30 if quick else 60, scheme=sub.chance(0.2))
         c = make_far(sub, c)
         c["subseed"] = i
-        yield pick_storage(sub, with_copies(c) if c["kind"] == "track" else c)
+        yield pick_storage(sub, with_auto(with_copies(c) if c["kind"] == "track" else c))
     r = rng.fork("c09-noisy")  # long tracks from diffusion dominated to pure localisation noise, see gen_noisy_case
     for i in range(32 if quick else 300):
         sub = r.fork(i)
         c = gen_noisy_case(sub, 80 if quick else 128)
         c["subseed"] = i
-        yield pick_storage(sub, c)
+        yield pick_storage(sub, with_auto(c))
+    yield from optraw_scope(quick)
 
 
 def lag_holes(case):
